@@ -609,6 +609,7 @@ def _check_case(case, st):
             "directive-location": ("definition-order",),
             "merged-parents": ("no-closure",),
             "two-usages": ("argument-order", "selection-order", "input-field-order", "definition-order"),
+            "shared-fragment-variable": ("definition-order",),
         }[case["family"]]
         for j, (name, tag, label, c) in enumerate(X.FAMILIES[case["family"]]()):
             if case["from"] <= j < case["to"]:
